@@ -30,13 +30,16 @@ type GConf struct {
 	VPN       *GVPN
 	VRF       string // IOS: all managed interfaces and routes belong to this VRF
 	IOSCrypto *GIOSCrypto
+	// IOS: this managed interface belongs to VRF Vkept, for which the
+	// target specifies no routes; the device has some (see addUnmanaged).
+	KeptVRFIntf string
 	// IOS: order in which the Netspoc file lists the interfaces
 	// (indexes into Intfs); the device always lists them by number.
 	Perm []int
 }
 
 func (c *GConf) clone() *GConf {
-	n := &GConf{VRF: c.VRF, Kind: c.Kind}
+	n := &GConf{VRF: c.VRF, Kind: c.Kind, KeptVRFIntf: c.KeptVRFIntf}
 	n.Intfs = append(n.Intfs, c.Intfs...)
 	for _, g := range c.Groups {
 		n.Groups = append(n.Groups, &GGroup{g.Name, append([]string{}, g.Members...)})
@@ -131,6 +134,8 @@ func (c *GConf) Text(device bool) string {
 		fmt.Fprintf(&b, "interface %s\n", n)
 		if c.VRF != "" {
 			fmt.Fprintf(&b, " ip vrf forwarding %s\n", c.VRF)
+		} else if c.KeptVRFIntf == n {
+			b.WriteString(" ip vrf forwarding Vkept\n")
 		}
 		fmt.Fprintf(&b, " ip address 10.0.%d.1 255.255.255.0\n", i)
 		for _, bd := range c.Binds {
@@ -396,6 +401,9 @@ func (g *Gen) Target() *GConf {
 				c.Routes = append(c.Routes, fmt.Sprintf("ip route vrf V1 %s 255.255.255.0 10.9.%d.%d", a, g.Rng.Intn(3), 1+g.Rng.Intn(200)))
 			}
 		}
+	}
+	if g.Kind == "ios" && !g.Small && c.VRF == "" && len(c.Intfs) > 1 && g.Rng.Intn(3) == 0 {
+		c.KeptVRFIntf = c.Intfs[len(c.Intfs)-1]
 	}
 	if g.Kind == "ios" && len(c.Intfs) > 1 && g.Rng.Intn(2) == 0 {
 		c.Perm = g.Rng.Perm(len(c.Intfs))
@@ -1006,6 +1014,15 @@ func (g *Gen) addUnmanaged(d *GConf) {
 			"interface Vlan11\n ip vrf forwarding 077\n ip address 10.0.11.1 255.255.255.0\n ip access-group kept_Vlan11_in-DRC-0 in")
 		if g.Rng.Intn(2) == 0 {
 			d.Extra = append(d.Extra, "ip route vrf 077 0.0.0.0 0.0.0.0 10.0.10.254")
+		}
+	}
+	if d.KeptVRFIntf != "" {
+		// Routes of a VRF Netspoc knows by an interface only.
+		for i := 1 + g.Rng.Intn(2); i > 0; i-- {
+			d.Extra = append(d.Extra, fmt.Sprintf("ip route vrf Vkept 10.77.%d.0 255.255.255.0 10.9.9.%d", i, i))
+		}
+		if g.Rng.Intn(2) == 0 {
+			d.Extra = append(d.Extra, "ip route vrf Vkept 0.0.0.0 0.0.0.0 10.9.9.254")
 		}
 	}
 	d.Extra = append(d.Extra,
